@@ -1,6 +1,7 @@
 import BigtreeModel.Export
 import BigtreeModel.Newick
 import BigtreeProofs.Lemmas.ExportRoundtrip
+import BigtreeProofs.Lemmas.NewickRoundtrip
 /-!
 # C06 — exports are complete; export ∘ import = identity
 
@@ -114,5 +115,54 @@ example : canon exTree ≠ .node 0 "a".toList [] [] := by decide
 example : (treeToNested { maxDepth := 2 } [] exTree).map (fun x => x.kids.length) = some 2 := by decide
 example : (treeToNested (fullOpts []) [] exTree).bind (nestedToTree strName) = some (canon exTree) :=
   nested_roundtrip [] exTree exTree_ok
+
+/-! ## Newick -/
+
+/-- side conditions of the Newick theorems, discharged for the GENERATED table of
+`NewickCharacter` values: eight pairwise distinct single characters, equal to the punctuation the
+writer emits literally. If `constants.py` changes so that this fails, the build fails here. -/
+theorem newick_table_ok : Newick.chars.OK := by decide
+
+theorem newick_table_is_generated :
+    Newick.Chars.ofTable Generated.newickSpecials = some Newick.chars := by decide
+
+/-- The stack invariant of the parser: reading `tree_to_newick(t)` from a state with nothing
+pending at depth `d` (and nothing parked above `d`) ends in the same state with `t`'s name pending
+and exactly `t`'s children parked at depth `d+1` — for any constants meeting the side conditions,
+any continuation `rest`, names without the quote character (names containing any of the other
+special characters are written quoted and are read back verbatim). -/
+theorem newick_stack_invariant (c : Newick.Chars) (hc : c.OK) (la pre : Str) (t : Tree) (s : Newick.PState)
+    (rest : Str) (hs : Newick.Ready s) (h1 : AllNodes NodeOK t) (h2 : AllNodes (fun u => c.quote ∉ u.name) t) :
+    Newick.go c la pre s (Newick.ws c t ++ rest) = Newick.go c la pre (Newick.parked s t) rest :=
+  Newick.go_ws c hc la pre t s rest hs ⟨h1, h2⟩
+
+/-- `newick_to_tree (tree_to_newick t) = t` in names, shape and sibling order, for every tree whose
+names are non-empty, sibling-unique and free of `'` — including names that contain any of the other
+special characters `( ) [ ] = : ,`, from any start node, for any `length_attr` / `attr_prefix`
+given to the parser. -/
+theorem newick_roundtrip (t : Tree) (isRoot : Bool) (la pre : Str)
+    (h1 : AllNodes NodeOK t) (h2 : AllNodes (fun u => '\'' ∉ u.name) t) :
+    (Newick.write Newick.chars {} isRoot t).bind (Newick.parse Newick.chars la pre)
+      = some (Newick.namesOnly t) := by
+  rw [Newick.write_default, Option.bind_some]
+  have hq : Newick.chars.quote = '\'' := newick_table_ok.2.2.2.2.2.2.1
+  exact Newick.parse_ws Newick.chars newick_table_ok la pre t ⟨h1, by rw [hq]; exact h2⟩
+
+/-- the quoting rule: a name is written between quotes exactly when it contains one of the table's characters -/
+theorem newick_quoting (n : Str) :
+    Newick.serialize Newick.chars n
+      = if n.any (fun ch => Newick.chars.values.contains ch)
+        then '\'' :: n.map (fun ch => if ch = '\'' then '"' else ch) ++ ['\''] else n := by
+  have hq : Newick.chars.quote = '\'' := newick_table_ok.2.2.2.2.2.2.1
+  unfold Newick.serialize
+  rw [hq]
+
+theorem exTree_noquote : AllNodes (fun u => '\'' ∉ u.name) exTree := by
+  simp [exTree, AllNodes, AllNodesL]
+
+example : Newick.write Newick.chars {} true exTree = some "((a)'b (c)',('b (c)')'c:d')a".toList := by decide
+example : (Newick.write Newick.chars {} true exTree).bind (Newick.parse Newick.chars [] []) = some (Newick.namesOnly exTree) :=
+  newick_roundtrip exTree true [] [] exTree_ok exTree_noquote
+example : Newick.parse Newick.chars "length".toList [] "(a,(b".toList = none := by decide
 
 end C06
